@@ -6,7 +6,7 @@ D = ["-D__NO_CTYPE"]
 STUBS_RUN = ["do_tokenize:do_tokenize_contract", "find_command:find_command_contract", "do_prompt:do_prompt_contract"]
 STUBS_EVAL = ["do_tokenize:do_tokenize_contract", "find_command:find_command_contract"]
 NAMES = "command names of 1..4 characters (any bytes); table size is the real constant 32"
-EQ_LEN, TEXT_LEN, STREAM_LEN = 8, 17, 5
+EQ_LEN, TEXT_LEN = 8, 6
 
 
 RUNLOOP = ["console_run.3:3"]   # the while(1) of console_run: one iteration per unread character (the step harnesses hold at most one), checked by the unwinding assertion
@@ -31,6 +31,9 @@ HS = (
          for cn, c in _CASES for k in ((0, 1) if c == 0 else (0,))], []) +
     _both("run_spawn", "h_run_spawn", ["console_run"], replace_calls=STUBS_RUN, unwindset=RUNLOOP, timeout=600,
           note="resumption of a blocked command; callees substituted by their contract stubs") +
+    _both("process", "h_process", ["console_process"], replace_calls=["console_run:console_run_contract"], timeout=300,
+          bounded="the console protothread yields at most 3 times per character (the loop of console_process has no state of its own)",
+          note="console_process = ring put + console_run until it no longer yields; console_run substituted by a stub that only answers and counts (its step contract is run_wait / run_spawn)") +
     _both("do_prompt", "h_prompt", ["do_prompt"], timeout=300) +
     _both("tokenize", "h_tokenize", ["do_tokenize"], lp_unwind=82, timeout=900,
           note="every content of the 80-byte line buffer: the loop bound 80 is a constant, unwound completely") +
@@ -44,9 +47,10 @@ HS = (
     _both("eval_step", "h_eval_step", ["console_eval"], replace_calls=STUBS_RUN, unwindset=RUNLOOP + ["console_eval.1:9"], timeout=600, cbmc_flags=["--object-bits", "12"],
           bounded="injected text of at most 6 characters (any bytes), ring holding 0..15 unread bytes at any position; first invocation and one resumption after an arbitrary partial drain of the ring") +
     [H("eval_seq", F, "h_eval_seq", ["console_eval", "console_run", "console_init", "do_prompt"], defs=D + ["-DTEXT_LEN=%d" % TEXT_LEN],
-       replace_calls=STUBS_EVAL, unwind=82, timeout=900,
-       bounded="injected text of at most %d characters over {x, space, newline}; ring of the real size (16); commands exit at once" % TEXT_LEN,
-       note="sequence level: console_init, console_eval resumed until it exits, the harness runs the console protothread in between")]
+       replace_calls=["console_run:console_run_steps"], unwind=162, unwindset=["console_eval.1:%d" % (TEXT_LEN + 2)], timeout=900, cbmc_flags=["--object-bits", "12"],
+       bounded="injected text of at most %d characters over {x, space, newline}; ring of the real size (16) holding 12 unread typed characters when the injection starts (room for 3); commands exit at once" % TEXT_LEN,
+       note="sequence level: console_init, console_eval resumed until it exits, the harness runs the console protothread in between; under CBMC the protothread "
+            "is substituted by its per-character step contract executed for every unread character (natively the real console_run runs)")]
 )
 
 
@@ -55,15 +59,13 @@ def _mc(tier, recs):
     # bounded universes that were explored completely (symbolically) by the discharged bounded harnesses
     eq = sum(7 ** k * 6 for k in range(EQ_LEN)) + 1 if "tokenize_equiv" in names else 0     # lines: k non-NUL characters then NULs
     ev = sum(3 ** k for k in range(TEXT_LEN + 1)) if "eval_seq" in names else 0
-    st = 2 * sum(6 ** k for k in range(STREAM_LEN + 1)) if "stream" in names else 0
-    return {"states": eq + ev + st,
-            "transitions": ev * 1 + st * 1 + eq,
-            "traces_validated_against_impl": eq + ev + st,
+    return {"states": eq + ev,
+            "transitions": eq + ev,
+            "traces_validated_against_impl": eq + ev,
             "rule_model_checking": "states = members of the bounded input universes of the bounded harnesses that were discharged in this run, each covered symbolically by one query: "
-                                   "tokenizer lines (up to %d characters over 6 symbols + NUL padding), injected texts (up to %d characters over 3 symbols), character streams (up to %d characters over "
-                                   "6 symbols, times 2 command behaviours); the table harnesses (names of up to 4 arbitrary bytes, every fill 0..31) and the unbounded step contracts are not counted. "
+                                   "tokenizer lines (up to %d characters over 6 symbols + NUL padding), injected texts (up to %d characters over 3 symbols); the table harnesses (names of up to 4 arbitrary bytes, every fill 0..31) and the unbounded step contracts are not counted. "
                                    "transitions = one run of the real code per member; there is no separate model: the real console.c is what is executed, hence traces_validated_against_impl = states"
-                                   % (EQ_LEN, TEXT_LEN, STREAM_LEN)}
+                                   % (EQ_LEN, TEXT_LEN)}
 
 
 prop("C15", "model_checking",
@@ -72,7 +74,7 @@ prop("C15", "model_checking",
      "find_command / do_prompt substituted by contract stubs and the command by the most general command (any return code, may scribble on the scratch union); every step re-establishes the invariant, "
      "so streams of any length follow by induction from console_init (base case run_init). Each callee is verified against the same contract text (contracts/console_contract.h): do_tokenize on every "
      "content of the 80-byte buffer (complete), find_command / console_register on tables of every fill with names of up to 4 characters, do_prompt, the built-in handlers, console_putchar. "
-     "Functional equivalence of the tokenizer with a reference written from the statement, delivery by console_eval and the end-to-end behaviour of console_process are bounded checks. "
+     "Functional equivalence of the tokenizer with a reference written from the statement, and delivery by console_eval at sequence level are bounded checks. "
      "Memory-safety harnesses run under LP64 and ILP32.",
      HS, mc=_mc,
      trusted=["external, stubbed: fprintf / fflush (recorded by message), console_hwinit, fibre_init / fibre_run / fibre_run_atomic (C01-C03)",
@@ -87,6 +89,6 @@ prop("C15", "model_checking",
 claim("C15", "model_checking",
       "CBMC step contracts on the real console.c (callees substituted by contract stubs that are enforced in their own harnesses), complete unwinding of the constant-bound loops, bounded sequence-level harnesses",
       "Per-character step of console_run from every invariant state and every next character, do_tokenize on every 80-byte buffer content, table operations on every fill: complete inside the stated name bound; "
-      "streams of any length by induction. Tokenizer equivalence (lines <= %d), console_eval delivery (texts <= %d) and console_process end to end (streams <= %d) are bounded." % (EQ_LEN, TEXT_LEN, STREAM_LEN),
+      "streams of any length by induction. Tokenizer equivalence (lines <= %d) and console_eval delivery (texts <= %d) are bounded." % (EQ_LEN, TEXT_LEN),
       "I/O and fibre scheduling stubbed; command bodies by contract; LP64 and ILP32 data models for the memory-safety harnesses; native replay is LP64 only.",
       "DESIGN.md 5.C15")
